@@ -44,6 +44,70 @@ def trajectory(coords, symbols, matrix, time_step=1e-15, temperature=300.0, kind
     )
 
 
+DERIVE_HOW = ['slice', 'slice', 'filter', 'extend']
+
+
+def derive_strategy():
+    """generated description of how the trajectory under test is obtained from a larger / other one (None = built directly)"""
+    from hypothesis import strategies as st
+
+    return st.one_of(st.none(), st.none(), st.fixed_dictionaries({'how': st.sampled_from(DERIVE_HOW), 'pre': st.integers(0, 7), 'post': st.integers(0, 5),
+                                                                   'touch': st.booleans(), 'cut': st.integers(1, 10**6)}))
+
+
+def derived_trajectory(coords, symbols, matrix, time_step=1e-15, temperature=300.0, kind='Species', derive=None):
+    """The same trajectory as trajectory(coords, ...), but obtained the way users obtain most of their objects: as a frame range of
+    a longer run, as a species selection of a run with more atoms, or as two pieces joined with extend().
+    Selecting / slicing / splitting / extending return exactly the corresponding frames and atoms (C15), so every property of the
+    directly built trajectory must hold for the derived one."""
+    from .runner import gcall
+
+    coords = np.array(coords, float)
+    T, N, _ = coords.shape
+    if not derive:
+        return trajectory(coords, symbols, matrix, time_step, temperature, kind)
+    how, pre, post = derive['how'], derive['pre'], derive['post']
+
+    def junk(n, phase):
+        k = np.arange(n).reshape(n, 1, 1)
+        a = np.arange(N).reshape(1, N, 1)
+        ax = np.arange(3).reshape(1, 1, 3)
+        return coords[:1] + 0.31 * np.sin(1.0 + phase + 0.7 * k + 1.3 * a + 2.1 * ax)
+
+    if how == 'slice':
+        parent = trajectory(np.concatenate([junk(pre, 0.0), coords, junk(post, 0.5)], axis=0), symbols, matrix, time_step, temperature, kind)
+        if derive['touch']:
+            gcall(lambda: parent.displacements)
+        return gcall(lambda: parent[pre:pre + T])
+    if how == 'filter':
+        extra = 1 + pre % 3
+        cols, syms, j = [], [], 0
+        filler = junk(T, 0.25)
+        for i in range(N):
+            if i % 2 == 0 and j < extra:
+                cols.append(filler[:, i] + 0.2)
+                syms.append('Cl')
+                j += 1
+            cols.append(coords[:, i])
+            syms.append(symbols[i])
+        parent = trajectory(np.stack(cols, axis=1), syms, matrix, time_step, temperature, kind)
+        if derive['touch']:
+            gcall(lambda: parent.displacements)
+        return gcall(parent.filter, sorted(set(symbols)))
+    if how == 'extend':
+        if T < 2:
+            return trajectory(coords, symbols, matrix, time_step, temperature, kind)
+        cut = 1 + derive['cut'] % (T - 1)
+        a = trajectory(coords[:cut], symbols, matrix, time_step, temperature, kind)
+        b = trajectory(coords[cut:], symbols, matrix, time_step, temperature, kind)
+        if derive['touch']:
+            gcall(lambda: a.displacements)
+            gcall(lambda: b.displacements)
+        gcall(a.extend, b)
+        return a
+    raise ValueError(how)
+
+
 def sites_structure(matrix, frac, labels, specie='Li'):
     from pymatgen.core import Structure
 
